@@ -162,6 +162,34 @@ def run(ctx):
                              "first_again==ref": ra2 == ref, **pipeline.case_json(g, cfg)})
             if shared_ns != before:
                 viol.append({"what": "the caller's namespaces dict was modified", "before": before, "after": dict(shared_ns), **pipeline.case_json(g, cfg)})
+        # one list of target classes (prefixed names) handed to two Shapers whose namespaces_dict bind the prefix differently: each must
+        # read the names with its own dictionary, and the caller's list stays as it was; same for the list of ignored namespaces
+        stats["shared_target_lists"] = 0
+        nt_two = ""
+        for ns_, tag in (("http://people.example.org/", "p"), ("http://staff.example.org/", "s")):
+            for k in range(2):
+                nt_two += "<%sn%d> <%s> <%sPerson> .\n<%sn%d> <%s%s_only> \"x\" .\n" % (ns_, k, RDF_TYPE, ns_, ns_, k, ns_, tag)
+        for rep in range(3):
+            targets = ["ex:Person"]
+            ignore = ["http://nowhere.example.org/"]
+            t_before, i_before = list(targets), list(ignore)
+            outs = {}
+            order = [("http://staff.example.org/", "s"), ("http://people.example.org/", "p")] if rep % 2 else [("http://people.example.org/", "p"), ("http://staff.example.org/", "s")]
+            for ns_, tag in order + order[:1]:
+                sh = Shaper(raw_graph=nt_two, input_format=C.NT, target_classes=targets, namespaces_dict={ns_: "ex"}, namespaces_to_ignore=ignore)
+                outs.setdefault(tag, []).append(sh.shex_graph(string_output=True))
+            stats["shared_target_lists"] += 1
+            for tag, texts in outs.items():
+                fresh = Shaper(raw_graph=nt_two, input_format=C.NT, target_classes=["ex:Person"],
+                               namespaces_dict={("http://staff.example.org/" if tag == "s" else "http://people.example.org/"): "ex"},
+                               namespaces_to_ignore=["http://nowhere.example.org/"]).shex_graph(string_output=True)
+                if any(t != fresh for t in texts) or (tag + "_only") not in fresh:
+                    viol.append({"what": "two Shapers given the same target_classes list object (prefixed names) and different namespaces_dict: the "
+                                         "one binding ex: to the %s namespace does not get the result of a fresh run" % ("staff" if tag == "s" else "people"),
+                                 "order": [t for _, t in order], "got": texts[0][-300:], "fresh": fresh[-300:], "nt": nt_two})
+            if targets != t_before or ignore != i_before:
+                viol.append({"what": "the caller's target_classes / namespaces_to_ignore list was modified", "before": [t_before, i_before],
+                             "after": [list(targets), list(ignore)], "nt": nt_two})
         # outputs above the flush boundaries (5000, 10000 lines)
         def big_graph(nclasses):
             return "".join('<http://e.org/i%d> <%s> <http://e.org/K%d> .\n<http://e.org/i%d> <http://e.org/p%d> "x" .\n' % (i, RDF_TYPE, i, i, i % 7)
